@@ -579,6 +579,61 @@ def run_bfs_check(ctx, tags: set[str], plans: list[dict]) -> None:
     ctx.cov["exhaustive"] = True
 
 
+def long_histories() -> list[tuple[str, int, list]]:
+    """Single long histories beyond the depth of the search: counts that
+    cross a decimal digit, deep nesting, equal leaf names."""
+    T1 = "train1"
+    out = []
+    out.append(("fb", 2, [("root", T1, i % 2) for i in range(12)]))
+    out.append(("fb", 1, [(f"d{i}", "mix" if i % 5 == 0 else T1, i % 2)
+                          for i in range(12)]))
+    out.append(("npz", 2, [("x", T1, (i // 2) % 2) for i in range(11)]))
+    out.append(("fb", 2, [("a", T1, 0), ("a/b", T1, 0), ("a/b/c", T1, 1),
+                          ("a/b/c/d", "mix", 0), ("a/b", T1, 1),
+                          ("a", "mix", 0), ("root", T1, 0),
+                          ("a/b/c/d", T1, 1)]))
+    out.append(("fb", 2, [("b", T1, 0), ("a/b", T1, 0), ("a/x/b", T1, 1),
+                          ("b", T1, 0), ("x/b", "mix", 0), ("a", T1, 1),
+                          ("train", T1, 0), ("a/train", T1, 0)]))
+    out.append(("tfrec", 2, [("multi3", "mix", 0), ("x", T1, 0),
+                             ("multi", T1, 1), ("x", T1, 0),
+                             ("multi3", T1, 0), ("root", "mix", 1),
+                             ("multi", "mix", 0)]))
+    out.append(("fb/nohash+reads", 2, [("root", T1, i % 2)
+                                       for i in range(11)]))
+    return out
+
+
+def run_explicit(ctx, tags: set[str], cases: list[tuple[str, int, list]],
+                 inspect_all: bool = False) -> None:
+    """Run given histories (inspected after the last session; after every
+    session for "+reads" formats)."""
+    with core.pool() as ex:
+        tasks = [(fmt + ("" if "+reads" in fmt or not inspect_all else
+                         "+reads"), eps, [h]) for fmt, eps, h in cases]
+        n = ns = 0
+        for res in ex.map(run_chunk, tasks):
+            for r in res:
+                n += 1
+                ns += len(r["history"])
+                if r.get("harness"):
+                    ctx.harness_error(f"{r['history']}: {r['harness']}")
+                    continue
+                for prop, sym, msg in r["violations"]:
+                    if prop in tags:
+                        ctx.violation(
+                            {"engine": "opseq", "symptom": sym,
+                             "last": "long-history"},
+                            f"after history {r['history']}: {msg}",
+                            {"kind": "history", "fmt": tasks[n - 1][0],
+                             "eps": tasks[n - 1][1],
+                             "history": r["history"]})
+    ctx.part("long histories (7-12 sessions)",
+             histories=n, sessions=ns)
+    ctx.add(states=ns, transitions=ns, traces_validated_against_impl=n,
+            sessions_executed=ns)
+
+
 def replay_history(case: dict, tags: set[str]) -> list[str]:
     core.import_sedpack_quietly()
     hist = [tuple(l) for l in case["history"]]
